@@ -102,6 +102,9 @@ def c04(ctx):
     check_texts(ctx, texts, 'lineclass-random', nontrivial=len(set(texts)))
     # 3. genuinely signed Manifests and their mutations, with real gpg
     c04_gpg(ctx, r, 25 if quick else 250, 30 if quick else 60)
+    # 4. one ManifestFile object loaded several times: entries and signed state are those of the load just performed,
+    #    also when that load failed (nothing of an earlier, authenticated text may vouch for the new entries)
+    c05_histories(ctx, r, quick)
 
 
 MUT_LINES = ['', ' ', 'DATA injected 1', BEGIN, SIGBEGIN, END, 'Hash: SHA1', '- DATA esc 2', 'Comment: x', '-----FOO-----']
@@ -523,6 +526,20 @@ def c05_gpg(ctx, r, quick):
                             if rcode != want:
                                 ctx.violation('spec', f'verify {flags} on a {"signed" if signed_tree else "unsigned"} tree exited {rcode}, expected {want}',
                                               {'flags': flags, 'signed_tree': signed_tree})
+                    # gemato openpgp-verify over several files: status 1 iff one of them is rejected, wherever it stands
+                    good = os.path.join(td, 'good.asc')
+                    bad = os.path.join(td, 'bad.asc')
+                    open(good, 'w').write(signed)
+                    k = signed.index('DATA a 2')
+                    open(bad, 'w').write(signed[:k] + 'DATA b 2' + signed[k + 8:])
+                    for files in ([good], [bad], [good, good], [bad, good], [good, bad], [bad, bad, good], [good, bad, good], [bad, good, good]):
+                        rcode = run_cli(['gemato', 'openpgp-verify'] + files)
+                        n += 1
+                        want = 1 if bad in files else 0
+                        if rcode != want:
+                            names = [os.path.basename(x) for x in files]
+                            ctx.violation('spec', f'gemato openpgp-verify {" ".join(names)} exited {rcode}, expected {want} (a rejected signature is a failure wherever the file stands)',
+                                          {'files': names, 'exit': rcode})
             finally:
                 shutil.rmtree(td, ignore_errors=True)
     finally:
